@@ -26,6 +26,10 @@ def docMode : ModeArg → Option Mode
   | .nothing => some .nothing
   | .overwrite => some .overwrite
   | .bogus => none
+  -- an empty value stands for the default (main.go spells this case out; the usage text lists only the three names)
+  | .empty => some .new
+  | .lower => none
+  | .confirm => none
 
 /-- a documented invocation: exactly one of -com and -src, -files given, not both -json and
 -formatted-json, a documented mode (or none) -/
